@@ -123,6 +123,7 @@ PROPS['C02'] = dict(
 
 _CM = {'c-matrix-path-chains': lambda run: __import__('bounded.c_sweeps', fromlist=['x']).sweep_c_matrices(run)}
 _CML = dict(_CM, **{'c-matrix-large-shapes': lambda run: __import__('bounded.c_sweeps', fromlist=['x']).sweep_c_matrices_large(run)})
+_CDBA = {'c-dba-chains': lambda run: __import__('bounded.c_sweeps', fromlist=['x']).sweep_c_dba(run)}
 _CAFF = {'c-affinity-chains': lambda run: __import__('bounded.c_sweeps', fromlist=['x']).sweep_c_affinity(run)}
 _ALL_C_PROVED = (PROPS['C09']['contracts'][:10] + PROPS['C06']['contracts'][6:] + PROPS['C07']['contracts'] + PROPS['C02']['contracts'])
 
@@ -131,7 +132,7 @@ PROPS['C08'] = dict(
     contracts=[c for c in _ALL_C_PROVED if '::' in c],
     lemmas=['LenFullClosed', 'LenRectClosed', 'RowsBefore', 'RowsBeyond', 'LenFullBeyond', 'LenRowsNonneg',
             'RowAllInf', 'RowLeadInf', 'FoldMinIsMin'],
-    bounded=dict(_CML, **_CAFF),
+    bounded=dict(_CML, **dict(_CAFF, **_CDBA)),
     level='proof',
     level_text='For 27 exported C routines (Euclidean bounds, LB_Keogh, block/length helpers, the six serial and six OpenMP '
                'distance-matrix routines with their prepare step, the four DTW kernels) every array access, every signed idx_t '
@@ -481,6 +482,81 @@ PROPS['C17'] = dict(
     trusted_base=[PY_A1, A3_NUMPY, A7],
     assumptions=[PY_A1, A3_NUMPY, A7],
     not_decided=[],
+)
+
+PROPS['C12'] = dict(
+    modules=[],
+    contracts=[],
+    lemmas=[],
+    bounded=dict({'c12-native-sweep': _native_sweep('dba_native.py',
+        'random collections (1..5 series, lengths 2..5, ndim 1..3, list / matrix) x initial average x mask x window / penalty x engine: one DBA step is the mean along the library path, that path is optimal, range, fixed point, mask, fit does not get worse, C = Python for unique paths, dba_loop step bound', 200, 2000)}, **{'c-dba-chains': lambda run: __import__('bounded.c_sweeps', fromlist=['x']).sweep_c_dba_for(run, 'C12')}),
+    level='exploration',
+    level_text='Bounded stand-in only. The averaging step is swept on small collections in both engines; the C routines dtw_dba_ptrs / dtw_dba_matrix additionally run in sanitizer chains (C08).',
+    level_note='No unbounded claim: dba() builds lists of aligned points through warping_path (C05, not under contract).',
+    trusted_base=[],
+    assumptions=['bounded: small random inputs, stated in the sweep'],
+    not_decided=['unbounded contract for dtw_barycenter.dba / dtw_dba_*: needs the traceback contracts of C05'],
+    technique='bounded sweep of the real routines against an independent brute-force oracle (stand-in; no contract of this class-level routine is within reach of the verifier)',
+)
+
+PROPS['C13'] = dict(
+    modules=[],
+    contracts=[],
+    lemmas=[],
+    bounded=dict({'c13-native-sweep': _native_sweep('subseq_native.py',
+        'random (query 1..4, series 1..7, ndim 1..2) x penalty x engine: matching function == min over start points of the penalised DTW of the query and series[b..e] / len(query) (independent DP per segment); best match value / segment / path; kbest_matches distinct end points, ascending values, length limits, overlap, repeated iteration; Python == C', 200, 2500)}),
+    level='exploration',
+    level_text='Bounded stand-in only: the matching function of SubsequenceAlignment is compared with an exhaustive minimum over all start points on small inputs.',
+    level_note='dtw.warping_paths, which computes the matrix, is under contract for begin-psi only (C04); the end-psi stage and the class logic are not.',
+    trusted_base=[],
+    assumptions=['bounded: small random inputs, stated in the sweep'],
+    not_decided=['contract for SubsequenceAlignment.align / _best_matches (needs the end-psi stage of dtw.warping_paths and a lemma W(free start) = min over segments)'],
+    technique='bounded sweep of the real routines against an independent brute-force oracle (stand-in; no contract of this class-level routine is within reach of the verifier)',
+)
+
+PROPS['C14'] = dict(
+    modules=[],
+    contracts=[],
+    lemmas=[],
+    bounded=dict({'c14-native-sweep': _native_sweep('knn_native.py',
+        'random query x 1..6 candidates (duplicates, ties) x k in 1..N+1 / None x window / penalty / max_dist / max_value x use_lb x use_c x ndim x sequences of kbest_matches / best_match calls on one object: k smallest exhaustive distances, ascending, right indices, same answers as a fresh object', 300, 3000)}),
+    level='exploration',
+    level_text='Bounded stand-in only: SubsequenceSearch is compared with an exhaustive independent DTW on small candidate lists, including call histories.',
+    level_note='The callee contracts exist (dtw.distance C01, dtw.lb_keogh C09: LB computed as specified), but LB <= DTW itself is not machine-checked and the heap / cache logic is not under contract.',
+    trusted_base=[],
+    assumptions=['bounded: small random inputs, stated in the sweep'],
+    not_decided=['contract for SubsequenceSearch.align (heap invariant, threshold monotonicity) on top of C01/C09'],
+    technique='bounded sweep of the real routines against an independent brute-force oracle (stand-in; no contract of this class-level routine is within reach of the verifier)',
+)
+
+PROPS['C15'] = dict(
+    modules=[],
+    contracts=[],
+    lemmas=[],
+    bounded=dict({'c15-native-sweep': _native_sweep('hier_native.py',
+        'random collections of 2..7 series (ties, duplicates) x max_dist x weight / order hooks x Python / C distance matrix x refit: partition keyed by contained prototypes, merges non-decreasing and <= max_dist, stop condition, HierarchicalTree n-1 merges forming one rooted binary tree, LinkageTree == scipy.linkage', 200, 2500)}),
+    level='exploration',
+    level_text='Bounded stand-in only: the three clustering variants are swept on small collections.',
+    level_note='Hierarchical.fit is a NumPy argwhere / min loop over a distance matrix produced by C06 routines (under contract); the merge loop itself is not.',
+    trusted_base=[],
+    assumptions=['bounded: small random inputs, stated in the sweep'],
+    not_decided=['contract for Hierarchical.fit (alive-set / partition invariant)'],
+    technique='bounded sweep of the real routines against an independent brute-force oracle (stand-in; no contract of this class-level routine is within reach of the verifier)',
+)
+
+PROPS['C16'] = dict(
+    modules=[],
+    contracts=[],
+    lemmas=[],
+    bounded=dict({'c16-native-sweep': _native_sweep('kmeans_native.py',
+        'random data sets (3..8 series, ndim 1..2, duplicates) x k x seeds x initialisation (k-means++, random, sample size) x drop_stddev x window / penalty x use_c x serial / a few parallel fits: exactly k index sets 0..k-1 partitioning all series, k means, every series with a nearest mean (recomputed with the pure-Python distance), iterations <= max_it + 1', 150, 1500)}),
+    level='exploration',
+    level_text='Bounded stand-in only: KMeans.fit is swept on small data sets.',
+    level_note='Randomised seeding, multiprocessing and DBA (C12) are outside the verifier.',
+    trusted_base=[],
+    assumptions=['bounded: small random inputs, stated in the sweep'],
+    not_decided=['contract for the assignment step / final re-assignment'],
+    technique='bounded sweep of the real routines against an independent brute-force oracle (stand-in; no contract of this class-level routine is within reach of the verifier)',
 )
 
 NOT_APPLICABLE = {p: 'not decided yet: machinery for this property is still being built (see DESIGN.md §9 order of work)' for p in ['C01', 'C02', 'C03', 'C04', 'C05', 'C06', 'C07', 'C08', 'C09', 'C10', 'C11', 'C12', 'C13', 'C14', 'C15', 'C16', 'C17', 'C18', 'C19', 'C20'] if p not in PROPS}
